@@ -13,8 +13,12 @@
 (* sequence of operations, including reopening the database, is the record last *)
 (* written under that id, FIELD BY FIELD, with exactly these stated exceptions  *)
 (* (decided by reading swap/swap.go and swap/fsm.go):                           *)
-(*   E1  Data.LastErr (Go `error`, tag json:"-") is deliberately not persisted; *)
-(*       its persisted form is Data.LastErrString. It reloads as nil.           *)
+(*   E1  Data.LastErr (Go `error`, tag json:"-") is deliberately not persisted  *)
+(*       as a value; its persisted form is its text in Data.LastErrString,      *)
+(*       which the store makes current on every write (Create / Update:         *)
+(*       SwapData.syncLastErr). A record written with LastErr # nil reloads     *)
+(*       with LastErr = nil and LastErrString = LastErr.Error() (class          *)
+(*       "errtext"), whatever LastErrString held before.                        *)
 (*   E2  Strings are persisted as JSON text: bytes that are not valid UTF-8 are *)
 (*       replaced by U+FFFD (encoding/json). Class "badutf8" reloads as class   *)
 (*       "replaced" (= every invalid byte of the original replaced, nothing    *)
@@ -33,9 +37,10 @@
 (* (negative, extreme), amounts above 2^63, the keys, preimages, transaction    *)
 (* ids, cancel messages, role, type, Previous / Current / FSMState.             *)
 (*                                                                              *)
-(* P_C14_reason: the cancel reason the node reports (SwapData.GetCancelMessage) *)
-(* is the same before and after the reload ("cancel reasons" of C14). With E1   *)
-(* this needs the persisted fields to carry the reason.                         *)
+(* P_C14_reason: the cancel reason the node reports (SwapData.GetCancelMessage: *)
+(* Cancel.Message, else LastErr, else LastErrString, else CancelMessage) is the  *)
+(* same before and after the reload ("cancel reasons" of C14). With E1 this      *)
+(* holds because every written record carries the text of LastErr.               *)
 (* P_C14_continuation: the reloaded machine selects the same state table and    *)
 (* the same States[Current] entry (action, events, FailOnrecover) as the        *)
 (* original, namely the one FsmTables gives for (Type, Role, Current).          *)
@@ -184,32 +189,39 @@ BaseClass(f) ==
 Base == [f \in FieldNames |-> BaseClass(f)]
 With(r, fs) == [f \in FieldNames |-> IF f \in DOMAIN fs THEN fs[f] ELSE r[f]]
 \* ---- the codec (json tags of swap/swap.go, swap/fsm.go, swap/messages.go)
-EncFields(r) == {f \in FieldNames : Visible(r, f) /\ Persisted[f] /\ ~(OmitEmpty[f] /\ IsEmptyValue(Kind[f], r[f]))}
-Encode(r) == [f \in EncFields(r) |-> Wire(Kind[f], r[f])]
+\* the record as the store writes it (E1: store.go Create / Update call SwapData.syncLastErr before encoding)
+Stored(r) == [f \in FieldNames |->
+                IF f = "Data.LastErrString" /\ r[f] # "na" /\ r["Data.LastErr"] = "some" THEN "errtext" ELSE r[f]]
+EncFields(r) == LET w == Stored(r) IN
+                {f \in FieldNames : Visible(w, f) /\ Persisted[f] /\ ~(OmitEmpty[f] /\ IsEmptyValue(Kind[f], w[f]))}
+Encode(r) == LET w == Stored(r) IN [f \in EncFields(r) |-> Wire(Kind[f], w[f])]
 DocVisible(doc, f) == \A p \in Anc[f] : p \in DOMAIN doc /\ doc[p] = "present"
 Decode(doc) == [f \in FieldNames |->
                   IF ~DocVisible(doc, f) THEN "na"
                   ELSE IF f \in DOMAIN doc THEN doc[f] ELSE Zero(Kind[f])]
 \* what P_C14_roundtrip demands of a reload of r (identity but E1, E2)
-Expected(r) == [f \in FieldNames |->
-                  IF r[f] = "na" THEN "na"
+Expected(r) == LET w == Stored(r) IN
+               [f \in FieldNames |->
+                  IF w[f] = "na" THEN "na"
                   ELSE IF ~Persisted[f] THEN Zero(Kind[f])
-                  ELSE Wire(Kind[f], r[f])]
+                  ELSE Wire(Kind[f], w[f])]
 RecEq(a, b) == \A f \in FieldNames : SameVal(Kind[f], a[f], b[f])
 LemmaCodec(r) == RecEq(Decode(Encode(r)), Expected(r))
 \* fields a reload changes (the exceptions), as f :> class
 ExpDiff(r) == LET e == Expected(r) IN [f \in {g \in FieldNames : e[g] # r[g]} |-> e[f]]
 
-\* ---- cancel reason (swap.go GetCancelMessage: Cancel.Message, else LastErr, else CancelMessage)
-ReasonSrc(r) ==
-    IF r["Data"] # "present" THEN "none"
-    ELSE IF r["Data.Cancel"] = "present" THEN "Data.Cancel.Message"
-    ELSE IF r["Data.LastErr"] = "some" THEN "Data.LastErr"
-    ELSE "Data.CancelMessage"
-\* design-level statement of the known weakness: the reason survives iff it does not come from LastErr
-\* (or the persisted cancel message happens to be the same text, which no class of this model expresses)
-ReasonSurvives(r) == ReasonSrc(r) = ReasonSrc(Expected(r))
-
+\* ---- cancel reason (swap.go GetCancelMessage: Cancel.Message, else LastErr, else LastErrString, else CancelMessage)
+\* as <<field the text comes from, class of the text>>; the text of LastErr is class "errtext" wherever it stands
+Reason(r) ==
+    IF r["Data"] # "present" THEN <<"none", "">>
+    ELSE IF r["Data.Cancel"] = "present" THEN <<"Data.Cancel.Message", r["Data.Cancel.Message"]>>
+    ELSE IF r["Data.LastErr"] = "some" \/ r["Data.LastErrString"] = "errtext" THEN <<"Data.LastErr", "errtext">>
+    ELSE IF r["Data.LastErrString"] # "empty" THEN <<"Data.LastErrString", r["Data.LastErrString"]>>
+    ELSE <<"Data.CancelMessage", r["Data.CancelMessage"]>>
+ReasonSrc(r) == Reason(r)[1]
+\* design-level P_C14_reason: same source text before and after the reload (E2: as JSON text)
+ReasonSurvives(r) == LET a == Reason(r) b == Reason(Expected(r)) IN
+                     b[2] = Wire("str", a[2]) /\ (a[1] = b[1] \/ a[2] = "errtext")
 \* ---- continuation (service.go RecoverSwaps: table by Type and Role; fsm.go Recover: States[Current])
 TableOf(ty, ro) ==
     CASE ty = "1" /\ ro = "1" -> "in_sender"
